@@ -34,6 +34,7 @@ def case(task):
     desc, p, with_T, vacuum, Ns, seed = task
     res = {'task': [list(desc), p, with_T, vacuum, list(Ns)], 'err': {},
            'scale': {}, 'refmax': {}, 'raised': None}
+    gc.set_trim(desc, p)
     try:
         for N in Ns:
             rel, st, (X, Y, Z), inp = gc.build_core(
@@ -122,6 +123,9 @@ def build_tasks(tier, seed):
         tasks.append((('ds',), p, True, False, (14, 20), seed))
         # vacuum option ('no matter') together with a cosmological constant
         tasks.append((('ds',), p, False, True, (14, 20), seed))
+    # anti-de Sitter: Lambda < 0, with and without the vacuum option
+    tasks.append((('ads',), 4, False, True, (16, 32), seed))
+    tasks.append((('ads',), 4, True, False, (16, 32), seed))
     tasks.append((('schw',), 4, True, False, (16, 32), seed))
     tasks.append((('schw',), 4, False, True, (16, 32), seed))
     return tasks
@@ -170,7 +174,7 @@ def judge(run, task, res):
             ok = e_lo <= 1e-9 and e_hi <= 1e-9
             why = f"algebraic/exact-stencil key: rel err {e_lo:.2e},{e_hi:.2e}"
         else:
-            cap = gc.CAPS[p] * (30 if desc[0] in ('schw', 'scaled') else 1)
+            cap = gc.CAPS[p] * (30 if desc[0] in ('schw', 'scaled', 'ads') else 1)
             ok, why = gc.converges(e_lo, e_hi, p, cap=cap)
         if not ok:
             run.violation(f"C04:key={k}:{desc[0]}",
